@@ -88,6 +88,56 @@ PROPS = {
         "assumptions": ["a capsule split over two DATA frames is outside the property's quantifier (treated as unknown)",
                         "live half (every waiter sees the stored cause) is in the e2e correspondence when present"],
     },
+    "C03": {
+        "bins": ["codec"],
+        "rule": "session ids of every quarter-id encoding length (1,2,4,8 bytes) x payload lengths 0..65600 x "
+                "destination capacities around the exact size, written and read back; quarter ids at and beyond "
+                "2^60-1; truncated datagrams; non-trivial = distinct line with a non-empty payload or a boundary id",
+        "extracted_keys": ["QSTREAM_MAX"],
+        "trusted": CODEC_TRUST + ["quinn: send_datagram refuses exactly the QUIC datagrams longer than max_datagram_size()"],
+        "assumptions": ["live half (peer limits 0..65535, max_datagram_size under catch_unwind) is in the e2e correspondence when present"],
+    },
+    "C16": {
+        "bins": ["codec"],
+        "rule": "advertised settings, header maps (static hits, name-only hits, literals, Huffman and plain strings, "
+                "prefix-integer boundaries), responses for every status, WT preambles for random session ids, "
+                "datagrams: every emitted byte string decoded by the independent Spec decoders; non-trivial = distinct line",
+        "extracted_keys": ["ERROR_CODES", "ADVERTISED_SETTINGS", "WEBTRANSPORT_ALPN", "QPACK_STATIC_TABLE_ROWS",
+                           "HUFFMAN_CRATE", "FRAME_WEBTRANSPORT_STREAM", "STREAM_WEBTRANSPORT_STREAM"],
+        "trusted": CODEC_TRUST + ["Spec/H3.lean (hand transcription of the registries and RFC 9204 Appendix A)"],
+        "assumptions": ["Huffman code table of the linked crate is tied to RFC 7541 by Kraft equality + the RFC's examples, "
+                        "not by an independent transcription of all 257 rows",
+                        "what a running endpoint puts on the wire is recorded by a raw peer in the e2e correspondence when present"],
+    },
+    "C10": {
+        "bins": ["codec"],
+        "rule": "real verifier with an injected clock on certificates generated per case: validity 0 s, 1 s, 1 d, "
+                "14 d - 1 s, 14 d, 14 d + 1 s, 15 d, 400 d; now at both ends +-1 s and mid-window; P-256 / P-384 / "
+                "Ed25519; hash sets empty / match / other / many; undecodable DER; non-trivial = distinct line",
+        "extracted_keys": ["TLS_SELF_MAX_VALIDITY_DAYS"],
+        "trusted": ["x509-parser, rcgen, sha2, rustls (certificate view is an input of the model)"],
+        "assumptions": ["default trust policy refusing untrusted roots is rustls/webpki behaviour (wiring proved, behaviour assumed)"],
+    },
+    "C19": {
+        "bins": ["codec"],
+        "rule": "digests: all-zero, all-ff, every byte value at a random position, random; both formats formatted, parsed "
+                "back, parsed through FromStr; hand-made and mutated malformed texts; identities for SAN lists x validity "
+                "settings inspected with x509-parser and verified against their own pin; chains of 0..5 certificates, "
+                "keys and single certificates stored and loaded; corrupt PEM/DER; non-trivial = distinct line",
+        "extracted_keys": ["TLS_DEFAULT_VALIDITY_DAYS", "TLS_SELF_MAX_VALIDITY_DAYS"],
+        "trusted": ["rcgen, pem, rustls-pki-types, x509-parser, tokio::fs (modelled as inputs / checked by correspondence only)"],
+        "assumptions": ["bytes-array text round trip for all digests is shown per byte (all 256 values) and on whole "
+                        "digests by correspondence; the dotted-hex round trip is a theorem for every digest"],
+    },
+    "C20": {
+        "bins": ["codec"],
+        "rule": "idle timeouts over the representable range and beyond (0, 1 ms ... 2^62-1, 2^62, 2^62+1, u64::MAX s) on "
+                "both builders; bind / ALPN tables regenerated from the source; non-trivial = distinct line",
+        "extracted_keys": ["BIND_IP", "BIND_DUAL", "BIND_SOCKOPT", "WEBTRANSPORT_ALPN"],
+        "trusted": ["quinn IdleTimeout::try_from, socket2, the OS UDP stack"],
+        "assumptions": ["live half (sockets actually bound, negotiated ALPN, idle close, reload_config) is in the e2e "
+                        "correspondence when present"],
+    },
 }
 
 LEVEL_TEXT = {
@@ -118,6 +168,18 @@ LEVEL_TEXT = {
     "C04": "Lean 4 theorems: every 32-bit code and UTF-8 reason <= 1024 is reported exactly (also behind ignorable "
            "elements), clean FIN = (0, empty), abrupt end / malformed capsule = protocol error never app close, QUIC close "
            "codes and reasons are the identity through every mapping arm; tied by capsule differential runs",
+    "C03": "Lean 4 theorems: write-then-read returns session and payload byte for byte with the payload view starting "
+           "right after the quarter id, distinct sends give distinct datagrams, received payloads are suffixes of the "
+           "QUIC datagram, size contract len <= max <-> not TooLarge, and max is absent or header-adjusted for every peer limit",
+    "C16": "Lean 4 theorems: every registry value, the GREASE formula and all 99 static-table rows regenerated from the "
+           "source equal the hand-transcribed specification; advertised settings, control stream, preambles, datagrams and "
+           "field-section prefixes emitted by the model are read with the same meaning by the independent Spec decoders",
+    "C10": "Lean 4 theorem: accept iff DER ok and now in [notBefore, notAfter] and period <= 14 d and ECDSA P-256 and hash "
+           "pinned, for all integers / hash sets / certificates; refusal whenever one condition fails; policy wiring",
+    "C19": "Lean 4 theorems: dotted-hex digests round-trip for every byte string, per-byte decimal/hex text facts for all "
+           "256 values, wrong lengths rejected, default identity validity = 14 d within the pinning limit",
+    "C20": "Lean 4 theorems over the regenerated tables: the six bind presets map to the requested family / address / "
+           "v6only action; idle timeout refused iff not representable; ALPN h3",
 }
 
 LEVEL_NOTE = {
@@ -134,6 +196,12 @@ LEVEL_NOTE = {
     "C13": "Trusted as C14.",
     "C18": "Trusted as C14; url crate and u16::from_str modelled.",
     "C04": "Trusted as C14; quinn's close_reason() is an input of the model.",
+    "C03": "Trusted as C14; quinn's datagram size test is an assumed law named in the theorem.",
+    "C16": "Trusted as C14 plus the hand transcription in Spec/H3.lean.",
+    "C10": "Certificate parsing, hashing and signature checks are external (x509-parser, sha2, rustls): the model takes "
+           "their answers as the certificate view.",
+    "C19": "rcgen / pem / tokio::fs are exercised by correspondence only (partial).",
+    "C20": "OS / quinn apply the settings (partial); live half via e2e.",
 }
 
 
